@@ -19,7 +19,13 @@ class Deadlock(Exception):
     pass
 
 
-_MON = {"ready": False, "current": None}
+_MON = {"ready": False, "current": None, "line_funcs": set(), "line_enabled": set()}
+
+
+def set_line_funcs(funcs):
+    """Functions (filename, firstlineno) inside which EVERY LINE is a scheduling point (functions observed to change
+    process-global state).  Enabled lazily per code object through sys.monitoring local events."""
+    _MON["line_funcs"] = {tuple(f) for f in funcs}
 
 
 def _mon_setup():
@@ -40,11 +46,21 @@ def _mon_setup():
     def cb(code, offset):
         if not code.co_filename.startswith(prefix):
             return mon.DISABLE
+        if _MON["line_funcs"] and code not in _MON["line_enabled"] and (code.co_filename[len(prefix):], code.co_firstlineno) in _MON["line_funcs"]:
+            _MON["line_enabled"].add(code)
+            mon.set_local_events(tool, code, mon.events.LINE)
         s = _MON["current"]
         if s is not None:
             s._point(code)
         return None
 
+    def cb_line(code, line):
+        s = _MON["current"]
+        if s is not None:
+            s._point(code, line)
+        return None
+
+    mon.register_callback(tool, mon.events.LINE, cb_line)
     mon.register_callback(tool, mon.events.PY_START, cb)
     mon.set_events(tool, mon.events.PY_START)
     _MON["ready"] = True
@@ -67,15 +83,15 @@ class Sched:
         self.tids = {}
         self.use_mon = _mon_setup()
 
-    def _point(self, code):
-        """A library function is entered in the calling thread (sys.monitoring path)."""
+    def _point(self, code, line=None):
+        """A library function is entered (or, inside a state-changing function, a line is reached) in the calling thread."""
         tid = self.tids.get(threading.get_ident())
         if tid is None or self.done[tid]:
             return
         self.counts[tid] += 1
         to = self.plan.get((tid, self.counts[tid]))
         if to is not None and not self.done[to] and to != tid:
-            self.switches.append((tid, self.counts[tid], to, code.co_name))
+            self.switches.append((tid, self.counts[tid], to, code.co_name if line is None else f"{code.co_name}:{line}"))
             self.sems[to].release()
             if not self.sems[tid].acquire(timeout=self.watchdog_s):
                 raise Deadlock(f"thread {tid} never got the baton back")
@@ -132,3 +148,57 @@ class Sched:
         if not ok:
             raise Deadlock(f"schedule did not finish: done={self.done} counts={self.counts}")
         return self.results, self.counts
+
+
+def discover_state_changing_functions(body, fingerprint):
+    """Run `body` once and return the library functions (filename relative to the library, firstlineno, name) during
+    whose OWN execution the process-global state fingerprint changed (innermost frames only: a caller is charged only
+    for changes that did not happen inside one of its library callees)."""
+    mon = sys.monitoring
+    tool = mon.PROFILER_ID
+    mon.use_tool_id(tool, "mc-discover")
+    prefix = repo.LIB_PREFIX
+    stack = []  # [code, fingerprint at entry or after the last callee returned, changed?]
+    found = {}
+
+    def start(code, offset):
+        if not code.co_filename.startswith(prefix):
+            return mon.DISABLE
+        fp = fingerprint()
+        if stack and stack[-1][1] != fp:
+            stack[-1][2] = True  # the caller changed state before making this call
+        stack.append([code, fp, False])
+
+    def ret(code, offset, retval=None):
+        if not code.co_filename.startswith(prefix):
+            return mon.DISABLE
+        # generators yield without returning: unwind to the frame of this code object
+        idx = next((i for i in range(len(stack) - 1, -1, -1) if stack[i][0] is code), None)
+        if idx is None:
+            return
+        del stack[idx + 1:]
+        c, fp0, changed = stack.pop()
+        fp = fingerprint()
+        if changed or fp != fp0:
+            found[(code.co_filename[len(prefix):], code.co_firstlineno)] = code.co_qualname
+        if stack:
+            stack[-1][1] = fp  # changes made by the callee are not charged to the caller
+
+    mon.register_callback(tool, mon.events.PY_START, start)
+    mon.register_callback(tool, mon.events.PY_RETURN, ret)
+    def unwind(code, offset, exc):  # PY_UNWIND cannot be disabled per location
+        if code.co_filename.startswith(prefix):
+            ret(code, offset)
+        return None
+
+    mon.register_callback(tool, mon.events.PY_UNWIND, unwind)
+    mon.set_events(tool, mon.events.PY_START | mon.events.PY_RETURN | mon.events.PY_UNWIND)
+    try:
+        try:
+            body()
+        except Exception:  # noqa: BLE001 - a failing encode is a legitimate body
+            pass
+    finally:
+        mon.set_events(tool, 0)
+        mon.free_tool_id(tool)
+    return sorted((f, l, q) for (f, l), q in found.items())
